@@ -217,16 +217,17 @@ fn op_allocate(ctx: &mut Ctx, sc: &mut dyn ScopeOps) {
         Ok((ptr, len)) => {
             check_new_block(ctx, &text, ptr, len, l);
             let shadow = if zeroed {
-                let bytes = unsafe { std::slice::from_raw_parts(ptr as *const u8, l.size()) };
+                // the whole RETURNED block is zero
+                let bytes = unsafe { std::slice::from_raw_parts(ptr as *const u8, len.max(l.size())) };
                 if bytes.iter().any(|&b| b != 0) {
-                    ctx.oracle("C02", format!("`{text}`: allocate_zeroed returned non-zero bytes"));
+                    ctx.oracle("C02", format!("`{text}`: allocate_zeroed returned non-zero bytes (returned block of {len} bytes)"));
                 }
                 vec![0; l.size()]
             } else {
                 Vec::new()
             };
             let id = ctx.add_block(ptr, l.size(), l.align(), shadow, None);
-            log_op(ctx, sc, &text, &format!("ok {id} {ptr} {}", l.size()));
+            log_op(ctx, sc, &text, &format!("ok {id} {ptr} {len}"));
         }
         Err(()) => {
             ctx.br("allocate err");
@@ -364,9 +365,11 @@ fn op_grow(ctx: &mut Ctx, sc: &mut dyn ScopeOps) {
             }
             let mut shadow = b.shadow.clone();
             if zeroed {
-                let tail = unsafe { std::slice::from_raw_parts((ptr + b.size) as *const u8, nl.size() - b.size) };
-                if tail.iter().any(|&x| x != 0) {
-                    ctx.oracle("C02", format!("`{text}`: the new tail of grow_zeroed is not all zero"));
+                // `Allocator::grow_zeroed`: bytes old_size..(length of the RETURNED block) are zero
+                let upto = len.max(nl.size());
+                let tail = unsafe { std::slice::from_raw_parts((ptr + b.size) as *const u8, upto - b.size) };
+                if let Some(k) = tail.iter().position(|&x| x != 0) {
+                    ctx.oracle("C02", format!("`{text}`: the new tail of grow_zeroed is not all zero (byte {} of the returned block of {len} bytes reads {:#04x})", b.size + k, tail[k]));
                 }
                 if shadow.len() == b.size {
                     shadow.resize(nl.size(), 0);
@@ -374,7 +377,8 @@ fn op_grow(ctx: &mut Ctx, sc: &mut dyn ScopeOps) {
             }
             ctx.remove_block(b.id);
             let id = ctx.add_block(ptr, nl.size(), nl.align(), shadow, None);
-            log_op(ctx, sc, &text, &format!("ok {id} {ptr} {}", nl.size()));
+            // the outcome carries the length the implementation RETURNED (the model returns exactly the requested size)
+            log_op(ctx, sc, &text, &format!("ok {id} {ptr} {len}"));
         }
         Err(()) => {
             ctx.br("grow err");
